@@ -726,26 +726,57 @@ CORE_READS = [
 ]
 
 
-def gen_program(casbin, rng, whole_api_names):
+DOM_WRITES = [
+    ("add_policy", ["alice", "domain1", "data2", "read"]),
+    ("remove_policy", ["admin", "domain1", "data1", "read"]),
+    ("add_role_for_user_in_domain", ["bob", "admin", "domain1"]),
+    ("add_role_for_user_in_domain", ["carol", "admin", "domain2"]),
+    ("delete_roles_for_user_in_domain", ["alice", "admin", "domain1"]),
+    ("add_grouping_policy", ["carol", "admin", "domain1"]),
+    ("remove_grouping_policy", ["bob", "admin", "domain2"]),
+    ("remove_filtered_grouping_policy", [2, "domain1"]),
+    ("build_role_links", []),
+    ("clear_policy", []),
+    ("load_policy", []),
+    ("add_grouping_policies", [[["carol", "admin", "domain1"], ["carol", "admin", "domain2"]]]),
+]
+DOM_READS = [
+    ("enforce", ["alice", "domain1", "data1", "read"]),
+    ("enforce", ["bob", "domain2", "data2", "write"]),
+    ("enforce", ["carol", "domain1", "data1", "write"]),
+    ("enforce", ["bob", "domain1", "data1", "read"]),
+    ("get_roles_for_user_in_domain", ["alice", "domain1"]),
+    ("get_users_for_role_in_domain", ["admin", "domain1"]),
+    ("get_permissions_for_user_in_domain", ["admin", "domain1"]),
+    ("get_implicit_roles_for_user", ["alice", "domain1"]),
+    ("get_implicit_permissions_for_user", ["alice", "domain1"]),
+    ("get_grouping_policy", []),
+    ("get_all_roles_by_domain", ["domain1"]),
+    ("get_filtered_grouping_policy", [2, "domain2"]),
+]
+
+
+def gen_program(casbin, rng, whole_api_names, kind="rbac"):
     shape = rng.choice([(1, 1), (1, 2), (2, 1), (2, 2), (1, 1, 1), (1, 3), (2, 1, 1), (3, 1)])
+    writes, reads = (CORE_WRITES, CORE_READS) if kind == "rbac" else (DOM_WRITES, DOM_READS)
     prog = []
     for n in shape:
         calls = []
         for _ in range(n):
             x = rng.random()
             if x < 0.45:
-                name, args = rng.choice(CORE_WRITES)
+                name, args = rng.choice(writes)
                 calls.append((name, list(args), {}))
             elif x < 0.9:
-                name, args = rng.choice(CORE_READS)
+                name, args = rng.choice(reads)
                 calls.append((name, list(args), {}))
             else:
                 name = rng.choice(whole_api_names)
-                args, kwargs = synth_args(casbin, name, inspect.signature(getattr(casbin.SyncedEnforcer, name)), "rbac", rng)
+                args, kwargs = synth_args(casbin, name, inspect.signature(getattr(casbin.SyncedEnforcer, name)), kind, rng)
                 if all(canon(a) == a for a in args):
                     calls.append((name, args, kwargs))
                 else:
-                    name, args = rng.choice(CORE_READS)
+                    name, args = rng.choice(reads)
                     calls.append((name, list(args), {}))
         prog.append(calls)
     return prog
@@ -875,7 +906,10 @@ def lin_task(args):
     common.use_repo()
     try:
         outcomes = seq_outcomes(kind, program)
-        out = {"execs": 0, "violations": [], "distinct_outcomes": set(), "blocked_states": 0}
+        total_calls = sum(len(c) for c in program)
+        if total_calls <= 2:
+            bound = 99  # two calls: ALL schedules (no preemption bound)
+        out = {"execs": 0, "violations": [], "distinct_outcomes": set(), "blocked_states": 0, "all_schedules": False}
         stack = [([], 0)]
         seen_prefix = set()
         rng = random.Random(seed)
@@ -907,6 +941,7 @@ def lin_task(args):
                 break
         out["distinct_outcomes"] = len(out["distinct_outcomes"])
         out["orders"] = len(outcomes)
+        out["all_schedules"] = bound == 99 and not stack and not out["violations"]
         return out
     except S.SchedError as e:
         return {"error": str(e)}
@@ -918,23 +953,27 @@ def _plain(program):
 
 def lin_check(res, casbin, rng, n_programs, bound, n_random, max_execs, extra_programs=(), bad_rows=frozenset()):
     names = [n for n in public_methods(casbin) if n not in EXEMPT and hasattr(casbin.Enforcer, n)]
-    programs = list(extra_programs)
+    programs = [("rbac", p) for p in extra_programs]
     while len(programs) < n_programs:
-        p = gen_program(casbin, rng, names)
+        kind = "dom" if rng.random() < 0.3 else "rbac"
+        p = gen_program(casbin, rng, names, kind)
         if _plain(p):
-            programs.append(p)
-    tasks = [("rbac", p, bound, n_random, rng.randrange(1 << 30), max_execs) for p in programs]
+            programs.append((kind, p))
+    tasks = [(kind, p, bound, n_random, rng.randrange(1 << 30), max_execs) for kind, p in programs]
     with mp.Pool(14) as pool:
         outs = pool.map(lin_task, tasks, chunksize=2)
-    for p, o in zip(programs, outs):
+    for (kind, p), o in zip(programs, outs):
         if "error" in o:
             raise common.Infra("controlled scheduler (C17): " + o["error"] + " program " + repr(_prog_show(p)))
         res.evaluations += o["execs"]
         res.traces_validated += o["execs"]
         res.count("lin:programs")
+        res.count("lin:model=" + kind)
         res.count("lin:executions", o["execs"])
         res.count("lin:threads=" + str(len(p)))
         res.count("lin:sequential_orders", o["orders"])
+        if o.get("all_schedules"):
+            res.count("lin:programs_with_ALL_schedules_explored")
         if o["distinct_outcomes"] > 1:
             res.nontrivial.add(hash(repr(_prog_show(p))))
             res.count("lin:programs_with_several_outcomes")
@@ -952,7 +991,7 @@ def lin_check(res, casbin, rng, n_programs, bound, n_random, max_execs, extra_pr
                     )
                     + f": threads {_prog_show(p)}, schedule {v['schedule']}",
                     "check": "lin",
-                    "setup": "rbac",
+                    "setup": kind,
                     "program": _prog_show(p),
                     "schedule": v["schedule"],
                     "expected": "results and final state of some sequential order",
